@@ -14,7 +14,8 @@ RULE = ('programs of the syntactic grammar generator lv/syntaxgen.py, printed tw
         'after dropping expression_heritage/full_text, and corresponding heritage texts are '
         'equal modulo whitespace and parentheses outside literals; (b) every '
         'HeritageAwareString h of every tree has h.heritage[h.start:h.stop] == h and '
-        'h.heritage is the comment-free text of a statement (known by construction); '
+        'h.heritage is the comment-free text of a statement (known by construction), and '
+        'the span of a variable / predicate / boolean / null atom reads exactly that atom; '
         '(c) the set of the_string values equals the set of generated literal contents '
         '(three literal forms; separators, brackets, comment markers, keywords, quotes, '
         'non-ASCII). Non-trivial: accepted by both parsers with >= 3 noise insertions of '
@@ -76,6 +77,33 @@ def heritage_pairs(a, b, out, path=''):
     return out
 
 
+def atom_nodes(n, out, path=''):
+    """expression nodes that are a variable / predicate / boolean / null literal."""
+    if isinstance(n, dict):
+        if 'expression_heritage' in n and ('variable' in n or 'literal' in n):
+            out.append((path, n))
+        for k, v in n.items():
+            atom_nodes(v, out, path + '/' + str(k))
+    elif isinstance(n, list):
+        for i, v in enumerate(n):
+            atom_nodes(v, out, path + '/%d' % i)
+    return out
+
+
+def atom_text(node):
+    """the source text an atom node must have come from (None: not determined)."""
+    if 'variable' in node:
+        return str(node['variable']['var_name'])
+    lit = node['literal']
+    if 'the_predicate' in lit:
+        return str(lit['the_predicate']['predicate_name'])
+    if 'the_bool' in lit:
+        return str(lit['the_bool']['the_bool'])
+    if 'the_null' in lit:
+        return 'null'
+    return None
+
+
 def check_tree(tree, mode, which, allowed, strings, text):
     """(b) and (c) on one accepted tree."""
     fails = []
@@ -97,6 +125,16 @@ def check_tree(tree, mode, which, allowed, strings, text):
                 fails.append((b, '%s %s text, node %s = %r: its heritage %r is not the text '
                               'of a statement\ntext:\n%s' % (mode, which, path, str(h),
                                                              h.heritage, text)))
+    for path, node in atom_nodes(tree, []):
+        h = node['expression_heritage']
+        want = atom_text(node)
+        if want is not None and norm_layout(str(h)) != want:
+            b = 'span_wrong_text:%s:%s' % (mode, parsers.path_class(path))
+            if b not in seen:
+                seen.add(b)
+                fails.append((b, '%s %s text, node %s is the atom %r but its source span '
+                              'reads %r\ntext:\n%s' % (mode, which, path, want, str(h),
+                                                        text)))
     got = set(parsers.the_strings(tree, []))
     exp = set(strings)
     if got != exp:
@@ -212,22 +250,33 @@ def shard(ctx, col):
 
 
 def check_case(case):
+    """A stored case carries the statement texts known by construction
+    (allowed_base / allowed_noisy).  A hand-written case may omit them: then the texts
+    must be free of comments and of ';' inside literals, and statements are the stripped
+    pieces between ';' (plus the `-->` rewrites)."""
     parsers.setup()
     case = dict(case)
     case.setdefault('strings', [])
-    if 'allowed_base' not in case:      # hand-written repro: statement = stripped piece
-        case['allowed_base'] = None
-    fails, _ = evaluate_loose(case) if case['allowed_base'] is None else evaluate(case)
+    case.setdefault('noisy', case['base'])
+    for which in ('base', 'noisy'):
+        if 'allowed_' + which not in case:
+            case['allowed_' + which] = naive_statements(case[which])
+    fails, _ = evaluate(case)
     return fails
 
 
-def evaluate_loose(case):
-    """hand-written repro without construction data: statements are re-derived by
-    splitting the comment-free texts given in the case ('statements_base'/'_noisy')."""
-    c = dict(case)
-    c['allowed_base'] = case.get('statements_base', [])
-    c['allowed_noisy'] = case.get('statements_noisy', [])
-    return evaluate(c)
+def naive_statements(text):
+    out = set()
+    for st in text.split(';'):
+        st = st.strip()
+        if not st:
+            continue
+        out.add(st)
+        if '-->' in st:
+            i = st.index('-->')
+            out.add(st[:i] + ' = ' + st[i + 3:])
+            out.add('@CompileAsUdf(%s)' % st[:st.index('(')].strip())
+    return sorted(out)
 
 
 def minimise(case, bucket):
